@@ -352,16 +352,16 @@ def rule_I2(ctx):
 def run(ctx):
     ctx.assume("the specification table is the property statement's formula; that it is 'the' FS-CRP is not decided")
     ctx.assume("rustworkx dfs_search visits every vertex reachable from the root and calls discover/tree_edge/finish as documented")
-    rule_T1(ctx)
-    rule_T2(ctx)
-    rule_T3(ctx)
-    rule_I1(ctx)
-    rule_I2(ctx)
+    ctx.soft(rule_T1)
+    ctx.soft(rule_T2)
+    ctx.soft(rule_T3)
+    ctx.soft(rule_I1)
+    ctx.soft(rule_I2)
     # the tree queries the densities read (number of clones, top-level clones, descendants, per-clone data,
     # outliers, multiplicity, root likelihood vector) against the reference semantics of the editor
     from ._treespec import rule_TS
 
-    rule_TS(ctx, owners=["tree.Tree"])
+    ctx.soft(rule_TS, owners=["tree.Tree"])
 
 
 _D = "phyclone/tree/distributions.py"
